@@ -1,4 +1,142 @@
-(* placeholder until C10/Proofs*.v land: nothing is claimed proved yet *)
-From V Require Import C10.Glue.
-Theorem c10_placeholder : True. Proof. exact I. Qed.
-Print Assumptions c10_placeholder.
+(* C10 - Contexts are immutable values and the runtime context is a per-thread stack.
+   Every sentence of the property as a theorem about the model (coq/C10/Model.v); proofs in coq/C10/Proofs*.v. *)
+From V Require Import C10.Glue C10.ProofsCtx C10.ProofsStack C10.ProofsSim C10.ProofsStep C10.ProofsCheck C10.ProofsProps.
+From Coq Require Import Lia.
+Local Open Scope nat_scope.
+
+(* "A Context never changes after creation ... every previously obtained context keeps answering GetValue/HasKey
+   exactly as before": for every reachable thread world, every further operation sequence, every named context. *)
+Theorem context_immutable : forall ops t i key,
+  reachable t -> i < length (t_pool t) ->
+  let c := nth i (t_pool t) root in
+  let t' := fst (run t ops) in
+  nth i (t_pool t') root = c /\
+  get_value (t_heap t') c key = get_value (t_heap t) c key /\
+  has_key (t_heap t') c key = has_key (t_heap t) c key.
+Proof. exact context_immutable_run. Qed.
+Print Assumptions context_immutable.
+
+(* "SetValue returns a new context in which the new key shadows older bindings ... the most recent binding of a key
+   is the one returned" - and every other key answers as the parent does. *)
+Theorem latest_binding_wins : forall h c k v k',
+  let h' := fst (set_value h c k v) in
+  let c' := snd (set_value h c k v) in
+  get_value h' c' k = v /\ (k' <> k -> get_value h' c' k' = get_value h c k').
+Proof. exact latest_binding_wins_set. Qed.
+Print Assumptions latest_binding_wins.
+
+(* SetValues, non-empty batch: the batch (iteration order) shadows the parent *)
+Theorem latest_binding_wins_batch : forall h c b k, ctx_ok h c -> b <> [] ->
+  get_value (fst (set_values h c b)) (snd (set_values h c b)) k =
+  match find (fun p => bytes_eqb (fst p) k) b with Some p => snd p | None => get_value h c k end.
+Proof. exact set_values_get. Qed.
+Print Assumptions latest_binding_wins_batch.
+
+(* keys are compared by (length, bytes): no prefix matches, NUL bytes and the empty key are ordinary;
+   the only other match is the default-constructed node of an empty batch against the empty key (F20) *)
+Theorem key_comparison_exact : forall key n,
+  node_matches key n = true <-> (n_key n = Some key \/ (n_key n = None /\ key = [])).
+Proof. exact node_matches_spec. Qed.
+Print Assumptions key_comparison_exact.
+
+(* F20 (open finding): SetValues of an EMPTY batch should answer exactly as the parent.  It does for every
+   non-empty key; the empty key is shadowed.  Full statement (refuted):
+     forall h c k, get_value (fst (set_values h c [])) (snd (set_values h c [])) k = get_value h c k *)
+Theorem setvalues_empty_batch_partial : forall h c k,
+  get_value (fst (set_values h c [])) (snd (set_values h c [])) k = if is_nilb k then vnone else get_value h c k.
+Proof. exact set_values_empty_get. Qed.
+Print Assumptions setvalues_empty_batch_partial.
+
+Theorem setvalues_empty_batch_refuted : exists h c,
+  ctx_ok h c /\ get_value h c [] <> vnone /\
+  get_value (fst (set_values h c [])) (snd (set_values h c [])) [] = vnone.
+Proof. exact ProofsProps.setvalues_empty_batch_refuted. Qed.
+Print Assumptions setvalues_empty_batch_refuted.
+
+(* "The runtime context of a thread behaves as a stack": the array {size_, capacity_, base_[]} with Push / Resize /
+   Pop / Detach as coded is a list, for every operation sequence, across every reallocation. *)
+Theorem stack_refines_list : forall ops s,
+  stack_wf s ->
+  stack_wf (fold_left sop_stack ops s) /\ abs (fold_left sop_stack ops s) = fold_left sop_list ops (abs s).
+Proof. exact stack_refines_list_ops. Qed.
+Print Assumptions stack_refines_list.
+
+Theorem stack_capacity_doubles : forall s c,
+  st_cap (push s c) = if Nat.ltb (st_cap s) (S (st_size s)) then 2 * S (st_size s) else st_cap s.
+Proof. exact push_capacity. Qed.
+Print Assumptions stack_capacity_doubles.
+
+(* the same for whole programs of the model against the SPEC's machine: in bounds, same list of names, same current *)
+Theorem program_stack_refines_list : forall ops,
+  let t := fst (run tstate0 ops) in
+  let a := srun sstate0 ops in
+  st_size (t_stk t) <= st_cap (t_stk t) /\ length (st_base (t_stk t)) = st_cap (t_stk t) /\
+  abs (t_stk t) = map (fun i => nth i (t_pool t) root) (s_stack a) /\
+  top (t_stk t) = nth (scur a) (t_pool t) root /\
+  cur_idx t = Z.of_nat (scur a).
+Proof. exact machine_stack_refines_list. Qed.
+Print Assumptions program_stack_refines_list.
+
+(* "Attach makes the given context current" *)
+Theorem attach_makes_current : forall s c, stack_wf s -> top (push s c) = c.
+Proof. exact ProofsProps.attach_makes_current. Qed.
+Print Assumptions attach_makes_current.
+
+(* "detaching a token restores the context that was current before the matching Attach" *)
+Theorem detach_top_restores : forall s c, stack_wf s ->
+  abs (fst (detach (push s c) c)) = abs s /\ snd (detach (push s c) c) = true /\
+  top (fst (detach (push s c) c)) = top s.
+Proof. exact ProofsProps.detach_top_restores. Qed.
+Print Assumptions detach_top_restores.
+
+Theorem balanced_sequence_restores : forall p s, balanced p -> stack_wf s ->
+  abs (fold_left sop_stack p s) = abs s /\ top (fold_left sop_stack p s) = top s.
+Proof. exact ProofsProps.balanced_sequence_restores. Qed.
+Print Assumptions balanced_sequence_restores.
+
+(* "also when tokens are detached out of order, which unwinds everything attached above it";
+   "a context attached more than once is matched most-recent-first" ([c] does not occur in [above]) *)
+Theorem detach_out_of_order_unwinds_to_most_recent : forall s c above below, stack_wf s ->
+  abs s = above ++ c :: below -> ~ In c above ->
+  abs (fst (detach s c)) = below /\ snd (detach s c) = true.
+Proof. exact ProofsProps.detach_out_of_order_unwinds_to_most_recent. Qed.
+Print Assumptions detach_out_of_order_unwinds_to_most_recent.
+
+(* "a foreign token changes nothing" *)
+Theorem detach_foreign_noop : forall s c, stack_wf s -> ~ In c (abs s) ->
+  fst (detach s c) = s /\ snd (detach s c) = (is_nilb (abs s) && ctx_eqb c root).
+Proof. exact ProofsProps.detach_foreign_noop. Qed.
+Print Assumptions detach_foreign_noop.
+
+(* "releasing a Scope re-activates the previously active span" *)
+Theorem scope_release_reactivates_previous_span : forall t sp p,
+  reachable t -> balanced p ->
+  let t1 := fst (step t (OScope sp)) in
+  let c := nth (length (t_pool t)) (t_pool t1) root in
+  nth (length (t_toks t)) (t_toks t1) TDead = TScope c /\
+  top (t_stk t1) = c /\ cur_span t1 = sp /\
+  let s2 := fold_left sop_stack p (t_stk t1) in
+  abs (fst (detach s2 c)) = abs (t_stk t) /\
+  top (fst (detach s2 c)) = top (t_stk t) /\
+  forall ex, span_of (get_value (ex ++ t_heap t1) (top (fst (detach s2 c))) span_key) = cur_span t.
+Proof. exact ProofsProps.scope_release_reactivates_previous_span. Qed.
+Print Assumptions scope_release_reactivates_previous_span.
+
+(* "what one thread attaches is never visible to another": under every schedule *)
+Theorem threads_isolated : forall sched m t,
+  fst (mrun m sched) t = fst (run (m t) (proj t sched)) /\
+  map snd (filter (fun p => Nat.eqb (fst p) t) (snd (mrun m sched))) = step_outs (m t) (proj t sched).
+Proof. exact ProofsProps.threads_isolated. Qed.
+Print Assumptions threads_isolated.
+
+(* the checker that ./check runs on the implementation's observations accepts the model's observation of every
+   program that parses and stays outside the reach of F20 (no empty batch, or no empty key queried) *)
+Theorem model_meets_spec : forall l m ts,
+  parse_case l = Some (m, ts) -> case_safe m ts -> run_spec l (run_model l) = [].
+Proof. exact model_meets_spec_wire. Qed.
+Print Assumptions model_meets_spec.
+
+Theorem model_meets_spec_refuted_by_F20 :
+  run_spec f20_witness (run_model f20_witness) = fail "setvalues_empty_batch:empty_key_shadowed".
+Proof. exact setvalues_empty_batch_refuted_witness. Qed.
+Print Assumptions model_meets_spec_refuted_by_F20.
